@@ -76,6 +76,30 @@ func loadRepo(repo, verifDir string, overlay map[string][]byte, extraPatterns ..
 	eng.tag(types.Typ[types.Float64])
 	eng.tag(types.NewMap(types.Typ[types.String], types.NewInterfaceType(nil, nil)))
 	eng.tag(types.NewSlice(types.NewInterfaceType(nil, nil)))
+	// deterministic tags for every named type of hc (and pointers to them), so that the scripts do not depend on the order
+	// in which functions are translated
+	var hcp []string
+	for p := range eng.pkgs {
+		if strings.HasPrefix(p, hcPath) {
+			hcp = append(hcp, p)
+		}
+	}
+	sort.Strings(hcp)
+	for _, p := range hcp {
+		sc := eng.pkgs[p].Pkg.Scope()
+		for _, n := range sc.Names() {
+			if tn, ok := sc.Lookup(n).(*types.TypeName); ok && !tn.IsAlias() {
+				eng.tag(tn.Type())
+				eng.tag(types.NewPointer(tn.Type()))
+			}
+		}
+	}
+	for _, n := range []string{"bytes.Buffer", "net/http.Request", "os.File", "sync.Mutex"} {
+		if ty := eng.typeByName(n, nil); ty != nil {
+			eng.tag(ty)
+			eng.tag(types.NewPointer(ty))
+		}
+	}
 	// syntax index + contract files
 	packages.Visit(pkgs, nil, func(p *packages.Package) {
 		for i, f := range p.Syntax {
@@ -322,4 +346,54 @@ func (e *Engine) checkSpecBindings() []string {
 		}
 	}
 	return errs
+}
+
+// checkWriters: static scan. The fields named by a writers rule may be stored to only inside the allowed functions
+// (which are under contract and preserve the object invariant that mentions those fields).
+func (e *Engine) checkWriters(prop string) (checked int, violations []string) {
+	for _, wr := range e.specs.Writers {
+		if wr.Prop != prop {
+			continue
+		}
+		checked++
+		allowed := map[string]bool{}
+		for _, a := range wr.Allowed {
+			allowed[a] = true
+		}
+		fields := map[string]bool{}
+		for _, f := range wr.Fields {
+			fields[f] = true
+		}
+		for key, fn := range e.byName {
+			if allowed[key] || !strings.Contains(key, hcPath) {
+				continue
+			}
+			for _, b := range fn.Blocks {
+				for _, ins := range b.Instrs {
+					st, ok := ins.(*ssa.Store)
+					if !ok {
+						continue
+					}
+					fa, ok := st.Addr.(*ssa.FieldAddr)
+					if !ok {
+						continue
+					}
+					pt, ok := fa.X.Type().Underlying().(*types.Pointer)
+					if !ok {
+						continue
+					}
+					if types.TypeString(pt.Elem(), nil) != wr.Type {
+						continue
+					}
+					stt := pt.Elem().Underlying().(*types.Struct)
+					if fields[stt.Field(fa.Field).Name()] {
+						// composite literal initialisation of a fresh object inside a constructor is a write too
+						violations = append(violations, fmt.Sprintf("%s writes %s.%s (rule at %s allows only %s)", key, wr.Type, stt.Field(fa.Field).Name(), wr.Where, strings.Join(wr.Allowed, ", ")))
+					}
+				}
+			}
+		}
+	}
+	sort.Strings(violations)
+	return
 }
